@@ -566,7 +566,13 @@ func runUnits(worker, raceWorker, id, tier string, seed int64, units []string, n
 	jobs := make(chan job, len(units)*2+1)
 	raceJobs := make(chan job, len(units)*2+1)
 	nRace := 0
+	only := os.Getenv("VERIF_ONLY") // debugging aid: run only the units whose name contains this
+	skipped := 0
 	for i := range units {
+		if only != "" && !strings.Contains(units[i], only) {
+			skipped++
+			continue
+		}
 		if strings.HasPrefix(units[i], "racepass/") {
 			raceJobs <- job{idx: i}
 			nRace++
@@ -576,7 +582,10 @@ func runUnits(worker, raceWorker, id, tier string, seed int64, units []string, n
 	}
 	var mu sync.Mutex
 	results := make([]result, 0, len(units))
-	pending := len(units)
+	pending := len(units) - skipped
+	if pending == 0 {
+		return nil
+	}
 	done := make(chan struct{})
 	finish := func(r result) {
 		mu.Lock()
@@ -712,9 +721,7 @@ func runUnits(worker, raceWorker, id, tier string, seed int64, units []string, n
 			}
 		}()
 	}
-	if len(units) > 0 {
-		<-done
-	}
+	<-done
 	sort.Slice(results, func(i, j int) bool { return results[i].Unit < results[j].Unit })
 	return results
 }
